@@ -71,7 +71,7 @@ Section Quic.
     ~ In p (peer_links r (run_gen U lb (init me) (emitted false qinit (h ++ Closed p :: h')))).
   Proof.
     intros Hn. rewrite emitted_app. cbn [emitted]. rewrite closed_emits_lost.
-    cbn [app]. apply (lost_never_reported U lb true).
+    cbn [app]. apply (lost_never_reported U lb true); [apply wf_true|].
     intros H. apply emitted_est in H. contradiction.
   Qed.
 End Quic.
